@@ -16,6 +16,14 @@ def subsequence(res, G, L, residue, live, prog, k, rate):
     """Every logged trace must describe, faithfully, a completion - in order."""
     bad = []
     labels = prog["labels"]
+    corner = [g for g in G if g.get("reyield_none_at_throw_site")]
+    if corner:
+        # residual corner of the thrown-at-yield repair (listed finding): judge the rest without these frames
+        codes = {id(g["code"]) for g in corner}
+        G = [g for g in G if id(g["code"]) not in codes]
+        L = [t for t in L if id(getattr(t.func, "__code__", None)) not in codes]
+        bad.append(("caught-throw-reyields-none-at-same-yield", f"{corner[0]['qual']}: an exception thrown into the suspended generator was caught "
+                    "there and it yielded None again from the same yield instruction; its trace may be logged early and incomplete"))
     i = 0
     for t in L:
         code = getattr(t.func, "__code__", None)
